@@ -256,6 +256,8 @@ def build(ctx, consts):
 
     # ---- hand models instantiated with the regenerated thresholds (defined at the end of the generated file)
     defs = []
+    if consts is None:          # the skeleton no longer matches: no model instance, Props/C05_b.v is reported as not shown
+        return g, ""
 
     def model(name, body, inputs, out, num_fn, sampler):
         binders = " ".join(f"({an} : {'T' if sh == 'S' else sh + ' T'})" for an, sh in inputs)
@@ -319,10 +321,14 @@ def hexl(a):
     return [float(x).hex() for x in np.asarray(a, float).flatten()]
 
 
+BAND_OFFSETS = [s * v for v in (2e-8, 5e-8, 6.5e-8, 6.7e-8, 7e-8, 2e-7) for s in (1.0, -1.0)]
+
+
 def angle_grid(rng, sing, n_rand):
-    """middle-angle values: every singular value, +-offsets 1e-12..1e-1, full-range random"""
+    """middle-angle values: every singular value, +-offsets 1e-12..1e-1 (and the edges of the 10*eps band, |cos| = sqrt(20 eps)
+    = 6.7e-8), full-range random"""
     for s in sing:
-        for o in OFFSETS:
+        for o in OFFSETS + BAND_OFFSETS:
             yield s + o, (s, o)
     for _ in range(n_rand):
         yield float(rng.uniform(-PI, PI)), (None, None)
@@ -330,8 +336,8 @@ def angle_grid(rng, sing, n_rand):
 
 def oracle_rpy(ctx):
     rng = ctx.rng
-    nr = ctx.n(40, 3000)
-    reps = ctx.n(2, 8)
+    nr = ctx.n(300, 6000)
+    reps = ctx.n(4, 10)
     for order, alias in ORDERS.items():
         for p, (s, o) in angle_grid(rng, [PI / 2, -PI / 2], nr):
             for _ in range(reps):
@@ -390,8 +396,8 @@ def oracle_rpy(ctx):
 
 def oracle_eul(ctx):
     rng = ctx.rng
-    nr = ctx.n(40, 3000)
-    reps = ctx.n(2, 8)
+    nr = ctx.n(300, 6000)
+    reps = ctx.n(3, 8)
     offs = OFFSETS + [s * 10.0 ** -k for k in (13, 14, 15, 16) for s in (1, -1)] + [2.2e-15, 2.3e-15, 3e-15]
     sing = [0.0, PI, -PI]
     grid = [(s + o, (s, o)) for s in sing for o in offs] + [(float(rng.uniform(-PI, PI)), (None, None)) for _ in range(nr)]
@@ -429,12 +435,15 @@ def oracle_eul(ctx):
                         ctx.fail(f'oracle:eul:{site}:range', f"Euler angles {e} outside [-pi, pi]", rep)
                     if not np.all(np.abs(d - e * 180 / PI) <= 1e-9 * 180):
                         ctx.fail(f'oracle:eul:{site}:deg', f"degrees {d} != radians*180/pi {e * 180 / PI}", rep)
+                    errd = float(np.max(np.abs(np.array(base.eul2r(d, unit='deg'), float) - R))) if np.all(np.isfinite(d)) else float('inf')
+                    if not errd <= 1e-6:
+                        ctx.fail(f'oracle:eul:{site}:rebuild-deg', f"eul2r(tr2eul(R,'deg'),'deg') differs from R by {errd:g}", rep)
 
 
 def oracle_angvec(ctx):
     rng = ctx.rng
-    nr = ctx.n(150, 10000)
-    reps = ctx.n(3, 10)
+    nr = ctx.n(1000, 20000)
+    reps = ctx.n(4, 10)
     offs = OFFSETS + [s * 10.0 ** -k for k in (13, 14, 15) for s in (1, -1)] + [3e-8, 5e-8, 2e-7, 3e-4]
     grid = [(s + o, (s, o)) for s in (0.0, PI) for o in offs] + [(float(rng.uniform(-PI, PI)), (None, None)) for _ in range(nr)]
     for th, (s, o) in grid:
@@ -503,7 +512,7 @@ def oracle_angvec(ctx):
 
 def oracle_planar(ctx):
     rng = ctx.rng
-    nr = ctx.n(100, 5000)
+    nr = ctx.n(2000, 50000)
     grid = [s + o for s in (0.0, PI / 2, -PI / 2, PI, -PI) for o in OFFSETS] + [float(rng.uniform(-PI, PI)) for _ in range(nr)]
     for th in grid:
         x, y = rng.normal(size=2) * log_uniform(rng, 1e-3, 1e3)
@@ -555,21 +564,20 @@ def run(ctx):
             ctx.fail('tconst:model-no-longer-corresponds', f"the hand model of the extraction kernels no longer mirrors the source: {ex}",
                      {'detail': str(ex)}, no_input=True)
             consts = None
-        if consts is not None:
-            g, defs = build(ctx, consts)
-            ctx.write_gen('Consts_C05.v', consts_text(consts))
-            ctx.write_gen(MOD + '.v', gen_text(g, defs, consts))
-            ctx.stats['thresholds'] = consts
-    if consts is not None:
-        rc, out, err, dt = ctx.coqc(os.path.join(os.path.dirname(ctx.write_gen(MOD + '.v', gen_text(g, defs, consts))), 'Consts_C05.v'))
-        if rc == 0:
-            rc, out, err, dt = ctx.coqc(ctx.write_gen(MOD + '.v', gen_text(g, defs, consts)))
-        if rc != 0:
-            ctx.fail('gen:compile', 'generated definitions do not compile: ' + err[-800:], no_input=True)
-        else:
-            ctx.prove('theories/Props/C05.v')
-            with ctx.timed('correspond'):
-                sym_num(ctx, g, MOD, ctx.n(260, 1500))
+        g, defs = build(ctx, consts)
+        ctx.stats['thresholds'] = consts
+        cpath = ctx.write_gen('Consts_C05.v', consts_text(consts or {}))
+        tpath = ctx.write_gen(MOD + '.v', gen_text(g, defs, consts))
+    rc, out, err, dt = ctx.coqc(cpath)
+    if rc == 0:
+        rc, out, err, dt = ctx.coqc(tpath)
+    if rc != 0:
+        ctx.fail('gen:compile', 'generated definitions do not compile: ' + err[-800:], no_input=True)
+    else:
+        ctx.prove('theories/Props/C05_a.v')       # constructors: axis orders, aliases, call forms, degrees
+        ctx.prove('theories/Props/C05_b.v')       # extraction: right inverse, singular case, ranges, degrees (needs the thresholds)
+        with ctx.timed('correspond'):
+            sym_num(ctx, g, MOD, ctx.n(260, 1500))
     with ctx.timed('oracle'):
         oracle_rpy(ctx)
         oracle_eul(ctx)
